@@ -292,3 +292,32 @@ Print Assumptions C17_geo_stats_row_groups_independent.
 Print Assumptions C17_geo_every_reset_statement_needed.
 Print Assumptions C17_int_store_lossless.
 Print Assumptions C17_int_store_injective.
+
+(** ---------- the bloom filter location of the live column chunk metadata
+    (Reset/BloomLoc.v): row groups that went through the column writer, with a
+    filter or (an optional dictionary column holding only nulls) without one,
+    and row groups copied verbatim from a file by WriteRowGroup ---------- *)
+From PQ Require Import Reset.BloomLoc Reset.BloomLocProofs.
+
+(** whatever the column writer went through -- any row groups [h], built or
+    copied, of any earlier life, from any state [a] -- after the reset every row
+    group records the location of its own filter, or none *)
+Theorem C17_bloom_location_history_irrelevant : forall bits a h rgs,
+  fst (blife breset bits (breset (snd (blife breset bits a h))) rgs) = map (own_loc bits) rgs.
+Proof. intros. apply blife_own. Qed.
+
+(** a reset that forgets the location only together with a filter the column
+    writer built itself is told apart (the location of a copied chunk survives
+    into a chunk that has no filter) *)
+Theorem C17_pinned_bloom_location_after_copy_refuted : exists bits h rgs,
+  fst (blife breset_pinned bits (breset_pinned (snd (blife breset_pinned bits bnew h))) rgs)
+  <> fst (blife breset_pinned bits (breset_pinned bnew) rgs).
+Proof. exact breset_pinned_refuted. Qed.
+
+Example C17_ex_bloom_location :
+  fst (blife breset 10 (breset (snd (blife breset 10 bnew [(4, Copied 47); (100, Built 3)]%N))) [(4, Built 0); (60, Built 30); (200, Copied 47)]%N)
+  = [(0, 0); (60, 64); (200, 47)]%N.
+Proof. vm_compute. reflexivity. Qed.
+
+Print Assumptions C17_bloom_location_history_irrelevant.
+Print Assumptions C17_pinned_bloom_location_after_copy_refuted.
